@@ -331,6 +331,17 @@ def run(repo, rep, tier):
     from . import cnative
     from .shared import contiguity
     cnative.statics(repo, rep, "R-C06-6")
+    rep.rule("R-C06-7", "(shared with C18) the accessor keeps no value derived from the data: a memo on the xarray-cached accessor "
+                        "makes a spectrum's result depend on what the object held before an in-place edit, i.e. on other data than the spectrum itself")
+    from ..effects import Engine
+    from .c18 import accessor_state
+    eng7 = Engine(repo)
+    eng7.solve()
+    for cq in ("wavespectra.specarray.SpecArray",):
+        cls7 = repo.cls(cq)
+        for f, ln, fn, cons, why in accessor_state(repo, eng7, cls7):
+            rep.fail("R-C06-7", f, ln, fn, cons, why + ": batched results no longer equal the result of the spectrum extracted on its own once the object was edited in place")
+        rep.ok("R-C06-7", f"{cls7.module.relpath} {cls7.name}", f"{len(cls7.methods)} methods", "no derived state stored on the accessor")
     contiguity(repo, rep, "R-C06-6")
     for q, why in EXEMPT_FUNCS.items():
         rep.note(f"out of scope: {q}: {why}")
